@@ -6,6 +6,7 @@ import vbuild, driver
 from driver import HarnessError, VERIF, TMP
 
 FEN_218 = "R6R/3Q4/1Q4Q1/4Q3/2Q4Q/Q4Q2/pp1Q4/kBNN1KB1 w - - 0 1"
+FEN_100 = "1q1q1rk1/1p3ppp/8/8/3B4/1Q1Q4/Q4PPP/3QR1K1 w - - 0 1"   # five queens: well over 64 legal moves
 FEN_KNIGHTS = "1NNNNNNN/P7/8/8/8/k7/8/N1N4K w - - 0 1"      # a7a8n gives the tenth knight
 FEN_QUEENS = "1QQQQQQQ/P7/8/8/8/Q7/Q5pp/K5bk w - - 0 1"    # a7a8q gives the tenth queen
 FEN_BARE = "8/8/8/3k4/8/3K4/8/8 w - - 0 1"
@@ -156,7 +157,7 @@ def grammar(tier, exe_rel, bookdir):
     q = tier == "quick"
     sp = lambda n: "position startpos" + (" moves " + " ".join(spine(n)) if n else "")
     P = [("spine%d" % n, sp(n), "long") for n in ([0, 700, 798, 799, 800, 801, 1600] if not q else [0, 700, 798, 799, 800, 801, 1600])]
-    P += [("moves218", "position fen " + FEN_218, "big"),
+    P += [("moves218", "position fen " + FEN_218, "big"), ("moves100", "position fen " + FEN_100, "big"),
           ("ten_knights", "position fen " + FEN_KNIGHTS + " moves a7a8n", "mid"),
           ("ten_queens", "position fen " + FEN_QUEENS + " moves a7a8q", "mid"),
           ("bare_kings", "position fen " + FEN_BARE, "trivial"),
@@ -168,7 +169,7 @@ def grammar(tier, exe_rel, bookdir):
         "trivial": ["go depth 1"] + deep + ["go movetime 50", "go infinite", "go", "go depth 64 movetime 4000", "go depth 41 wtime 600000 btime 600000",
                     "go depth 1000 movetime 2000"],
         "long": ["go depth 1", "go depth 2", "go depth 4", "go movetime 50", "go infinite"],
-        "big": ["go depth 1", "go depth 2", "go movetime 50", "go infinite", "SEARCHMOVES"],
+        "big": ["go depth 1", "go depth 2", "go depth 4", "go movetime 50", "go infinite", "SEARCHMOVES"],
         "mid": ["go depth 1", "go depth 3", "go movetime 50", "go infinite", "SEARCHMOVES"] + ([] if q else ["go depth 6", "go"]),
     }
     sessions = []
